@@ -112,6 +112,7 @@ class Generated:
         self.fn_ranges = []     # (line_start, line_end, key)
         self.lemmas = {}        # name -> (line_start, line_end, props)
         self.lost = []
+        self.consts = set()
         self.stubbed = set()    # functions emitted as contract-only stubs (isolation): their obligations are undecided
         self.trusted = []
         self.cheats_outside_prelude = []
@@ -254,6 +255,22 @@ def generate(unit, repo, vacuity=False, falsify=False, stub_fns=None, drop_asser
                 text, r = A.n16_add_assign(text); norms += r
             text, r = A.regex_rules(text, DEFAULT_RULES + unit.global_rules + spec.rules); norms += r
             text, hoisted, r = A.n14_hoist(text, guard=(dict(requires=[('guard.req.' + c.label, c.expr) for c in spec.guard.get('requires', [])], ensures=[('guard.ens.' + c.label, c.expr) for c in spec.guard.get('ensures', [])]) if spec.guard else None)); norms += r
+            # module-level `const NAME: T = EXPR;` items of the same source file that the function mentions are carried along
+            # (emitted once per unit, in front of the function)
+            carried = ''
+            if spec.file != _ex.EXPANDED:
+                try:
+                    src_all = open(os.path.join(repo, spec.file), encoding='utf-8').read()
+                except Exception:
+                    src_all = ''
+                for cm in set(re.findall(r'(?<![:\w])([A-Z][A-Z0-9_]{2,})(?![\w:(!])', text)):
+                    if cm in g.consts:
+                        continue
+                    dm = re.search(r'^(?:pub(?:\([^)]*\))?\s+)?const\s+%s\s*:\s*([^=;]+)=\s*([^;]+);' % re.escape(cm), src_all, re.M)
+                    if dm:
+                        g.consts.add(cm)
+                        carried += 'const %s: %s = %s;\n' % (cm, dm.group(1).strip(), dm.group(2).strip())
+                        norms.append(dict(rule='N1', before='module-level const %s' % cm, after='carried along with the function that uses it'))
             stubbed = False
             base_text = text
             spec_orig = spec
@@ -346,6 +363,8 @@ def generate(unit, repo, vacuity=False, falsify=False, stub_fns=None, drop_asser
                 out = '%s%s {\n/*@FN:%s*/\n%s    %s\n}\n' % ((hoisted + '\n') if hoisted else '', ih, key, ('    ' + attr_ + '\n') if attr_ else '', text)
             else:
                 out = '/*@FN:%s*/\n%s%s\n' % (key, (attr_ + '\n') if attr_ else '', text)
+            if carried:
+                g.carried_text = getattr(g, 'carried_text', '') + carried
             if drop_asserts:
                 # (driver, second pass) labelled assertions of OTHER properties that failed in this function are left out, so that the
                 # obligations of the property at hand are not proved under an assumption the verifier could not discharge
@@ -375,7 +394,7 @@ def generate(unit, repo, vacuity=False, falsify=False, stub_fns=None, drop_asser
         body.append((out, dict(key=key, kind=spec.kind, file=spec.file, path=spec.path, lines=item.lines,
                                sha256=item.sha256, norms=norms, lost_hints=lost_hints, group=getattr(spec, 'group', None))))
 
-    full = header + 'use std::ops::{Deref, DerefMut};\nuse std::marker::PhantomData;\nverus! {\n' + pre_text + spec_text + '// ---- extracted from %s\n' % repo
+    full = header + 'use std::ops::{Deref, DerefMut};\nuse std::marker::PhantomData;\nverus! {\n' + pre_text + spec_text + getattr(g, 'carried_text', '') + '// ---- extracted from %s\n' % repo
     line = full.count('\n') + 1
     # group blocks: members are emitted together, at the position of the first member
     grouped = []
